@@ -37,6 +37,9 @@ type RemoteEntry struct {
 	Age int         `json:"age"` // timestamp = some earlier clock value (see remoteTS)
 	Del bool        `json:"del,omitempty"`
 	Val model.Bytes `json:"val,omitempty"`
+	// Payload (Del): the deletion marker still carries a value on the wire (written by another tool / version, or by
+	// a native-schema application that flags an entry and leaves the payload in place): it is a deletion all the same
+	Payload model.Bytes `json:"payload,omitempty"`
 }
 
 type C11Op struct {
@@ -223,6 +226,7 @@ func checkC11(c C11Case, o *vcore.Obs) error {
 	var lastSynced header.TxnID
 	nt := false
 	remoteBetween := false
+	payloadMarkers := 0
 	captures := 0
 	staleSkipped := 0
 
@@ -363,7 +367,22 @@ func checkC11(c C11Case, o *vcore.Obs) error {
 					if r.Del {
 						fl = 1
 					}
-					es = append(es, model.KV{Key: key, Val: model.ValOf(val), TS: ts, Flags: fl})
+					wire := val
+					if r.Del && len(r.Payload) > 0 {
+						// (not where it would tie with the stored version: the tie-break between a live entry and a
+						// marker that carries a value is outside the documented domain - a deleted entry has no value)
+						tie := false
+						if md := m.DBIs[d.Name]; md != nil {
+							if sv, ok := md.Shadow[string(key)]; ok && sv.TS == ts {
+								tie = true
+							}
+						}
+						if !tie {
+							wire = r.Payload
+							payloadMarkers++
+						}
+					}
+					es = append(es, model.KV{Key: key, Val: model.ValOf(wire), TS: ts, Flags: fl})
 					items = append(items, mergeItem{d.Name, kind, key, model.SVer{TS: ts, Del: r.Del, Val: val}})
 				}
 				// snapshot entries in DBI order, as a real dump has them
@@ -434,6 +453,7 @@ func checkC11(c C11Case, o *vcore.Obs) error {
 		o.Class("kind-" + k)
 	}
 	o.ClassIf(remoteBetween, "remote-between-captures")
+	o.ClassIf(payloadMarkers > 0, "remote-deletion-marker-carrying-a-payload")
 	for i := 0; i < c.ExcludedEmpty; i++ {
 		o.Excluded("shadow-empty-value")
 	}
@@ -514,6 +534,8 @@ func genC11(t *rapid.T) C11Case {
 					Age: rapid.IntRange(0, 30).Draw(t, "age"), Del: rapid.IntRange(0, 3).Draw(t, "rdel") == 0}
 				if !r.Del {
 					r.Val = genVal("rval")
+				} else if rapid.IntRange(0, 2).Draw(t, "payload") == 0 {
+					r.Payload = model.Bytes("left-over")
 				}
 				op.Remote = append(op.Remote, r)
 			}
